@@ -1,3 +1,4 @@
+import Svgbob.Proofs.WholeLines
 import Svgbob.Proofs.LineRun
 import Svgbob.Proofs.ScopeLines
 import Svgbob.Proofs.SourceConstants
@@ -97,5 +98,13 @@ theorem heading_buckets_are_the_sources :
     Gen.headingOfAngle = [(0, "Right"), (45, "TopRight"), (63, "TopRight"), (90, "Top"),
       (117, "TopLeft"), (135, "TopLeft"), (180, "Left"), (225, "BottomLeft"), (243, "BottomLeft"),
       (270, "Bottom"), (297, "BottomRight"), (315, "BottomRight")] := heading_buckets_match_source
+
+/-- **every group the whole endorsement stage emits** (every `<g>` of the document) is a contact group
+of one span, hence holds no two plain lines that are collinear and touching, in either order — for
+every set of cells, every catalogue, any quoted texts -/
+theorem no_emitted_group_has_collinear_touching_lines (len : List Char → Nat) (cat : Catalogue)
+    (cells : Span) (escaped : List (Cell × List Char)) (F : List FragSpan) (G : List (List FragSpan))
+    (h : endorseAll len cat cells escaped = some (F, G)) : ∀ g ∈ G, g.Pairwise NotMergeableLines :=
+  endorseAll_groups_lines len cat cells escaped F G h
 
 end Svgbob.C09
